@@ -14,6 +14,7 @@ reg("T1", termination.rule_T1, 8)
 reg("T2", termination.rule_T2, 20)
 reg("T3", termination.rule_T3, 4)
 reg("T4", termination.rule_T4, 4)
+reg("T5", termination.rule_T5, 12)
 
 for _i, _f in enumerate(("S1", "S2", "S3", "S4", "S5", "S6", "S7", "S8", "S9"), 1):
     reg(_f, getattr(streams, "rule_" + _f), 2)
@@ -42,7 +43,7 @@ reg("L8c", flow.rule_L8c, 10)
 for _f, _n in (("N1", 10), ("N2", 10), ("N3", 10), ("N4", 10), ("N5", 8), ("N6", 6), ("N7", 6), ("N8", 8), ("N9", 20), ("N10", 2), ("N11", 2), ("X1", 10)):
     reg(_f, getattr(names, "rule_" + _f), _n)
 
-for _f, _n in (("P1", 10), ("P2", 6), ("P3", 4), ("P4", 8), ("P5", 15), ("P6", 8), ("P7", 12)):
+for _f, _n in (("P1", 10), ("P2", 6), ("P3", 4), ("P4", 8), ("P5", 15), ("P6", 8), ("P7", 12), ("P8", 2)):
     reg(_f, getattr(pairing, "rule_" + _f), _n)
 
 for _f, _n in (("B1", 25), ("B2", 20), ("B3", 5)):
@@ -87,38 +88,43 @@ PROPS = {
               "over the 7 modes (L8r, S7); cluster_top slicing and fat_entry chain (D4); FAT decoder terminates, installs links only at END words, raises only for "
               "malformed tables (T1, D1, D3, D2); per-performance collection loops and orphan detection over DISTINCT referenced performances (O1); routines at every "
               "level (N1)." + NOT + "byte equality; np.isin orphan mask semantics; FAT version handling of directory links."),
-    "C03": _p(["L8c", "T1", "P5", "C2", "Q4", "Q2", "Q1"],
+    "C03": _p(["L8c", "T1", "P5", "C2", "Q4", "Q2", "Q1", "R1", "P8"],
               "Decides the CDDA window clauses as E-AFF terms: MSF polynomial 4500m+75s+f, 2352-byte sectors, per-track offset = 2352*first_index(cur) and "
               "offset+size = 2352*first_index(next) (tiling identity: no gap, no overlap), last track to end_of_file, first INDEX used, walk advances with each emitted "
-              "track (L8c, T1-ITERATOR); all-audio cue -> CDDA (C2, Q4); whole-frame truncation with the stream's own frame size (P5); cue field extraction (Q1, Q2)." + NOT +
+              "track (L8c, T1-ITERATOR); all-audio cue -> CDDA (C2, Q4); whole-frame truncation with the stream's own frame size (P5); cue field extraction (Q1, Q2); every source stream is rewound before the "
+              "pass-through / pipeline choice, so a track is copied from its own start (R1); the sample routine a CDDA image resolves to through its class "
+              "hierarchy is a pass-through - one WAV per track, no L/R merging (P8)." + NOT +
               "tracks without INDEX lines; equality of bytes."),
-    "C04": _p(["L1w", "L2", "L7", "P5"],
+    "C04": _p(["L1w", "L2", "L7", "P5", "P6", "L8c"],
               "Decides the RIFF structure clauses: evaluated layouts of RiffStruct / chunk / fmt (16 bytes) / smpl (36 + 24*loops) / loop (24) incl. Prefixed(Int32ul) nesting, "
               "little-endian chunk ids, Rebuild terms byte_rate = rate*channels*bits//8 and block_align = channels*bits//8, loop count = len(loops) (L1w, L2); chunk append order "
-              "fmt,[smpl],data; fmt values; destination encoding; output opened with builtin open(path,'wb') (L7); every data block trimmed to whole frames of that stream (P5)." + NOT +
+              "fmt,[smpl],data; fmt values; destination encoding; output opened with builtin open(path,'wb') (L7); every data block trimmed to whole frames of that stream (P5); the frame size used for that trim is the one of the "
+              "encoding the stream is constructed with (L8c: CDDA tracks are 2 x 2 bytes) and interleaving pads all channels to one length before emitting frames (P6)." + NOT +
               "that construct's Prefixed computes sizes correctly; smpl field value ranges; samples whose export raises."),
-    "C05": _p(["P1", "P2", "P3", "P6", "P5", "P7", "N3", "N7", "R1", "N5"],
+    "C05": _p(["P1", "P8", "P2", "P3", "P6", "P5", "P7", "N3", "N7", "R1", "N5", "S9"],
               "Decides the pairing clauses: marks and index keyed by export name only, every iteration path emits exactly one sample or skips a consumed one, partner marked iff "
               "combined (P1); by case analysis over the regex group (L|R) the first combine_stereo argument is always the L sample, partner name = stem+separator+other suffix, "
               "merged name = stem (P2); left streams then right streams, channel count = number of streams (P3); frame-major interleave / de-interleave idioms and end-padding (P6); "
-              "end-of-data only on an empty trimmed block (P5); per-level hand-over exactly once (P7); names forwarded to the generalized sample (N3, N7)." + NOT +
+              "end-of-data only on an empty trimmed block (P5); per-level hand-over exactly once (P7); names forwarded to the generalized sample (N3, N7); an unreadable tail of either member of a "
+              "pair ends that sample's data instead of aborting the export of the remaining samples (S9)." + NOT +
               "which name multisets collide after renaming; unequal-length pairs."),
-    "C06": _p(["N1", "N2", "N3", "N4", "N5", "N7", "N9", "P1", "T1"],
+    "C06": _p(["N1", "N2", "N3", "N4", "N5", "N7", "N9", "P1", "P8", "T1"],
               "Decides confinement and character clauses: every directory class runs the naming routines on the children it hands out (N1) and receives them from its parent (N2); "
               "abstract string domain over the regex ASTs proves export names non-empty, alphabet within {word, space, - . #} (+ parentheses from counters), first character a word "
               "character, no trailing blank, directories not ending in '.' (N4); paths are built from export names only, joined under the destination, single write site (N5); "
               "each element gets exactly one name recomputed from the raw name (N7); pairing marks keyed by export names (P1); counter loop bounded (T1)." + NOT +
               "UNIQUENESS of paths within a run (depends on the whole sibling multiset; unclaimed clause)."),
-    "C07": _p(["S1", "S2", "S3", "T1", "D1", "D2", "D3", "D4"],
+    "C07": _p(["S1", "S2", "S3", "T1", "D1", "D2", "D3", "D4", "L1r"],
               "Decides chain-resolution clauses: get_path appends the cursor before advancing to table[cursor].next, leaves exactly at .end, range test `>= len(table)` dominates the "
               "access, bounded counter advances on every back-edge path (S1, T1-COUNTER); out-of-range link stores raise InvalidFatDefinition (S2); concatenation addressing (S3); both "
               "decoders terminate on every table by the VISITED-WALK variant (T1), install links on every exit that is not justified by a malformed-table atom (D1) and only at END words "
-              "/ directory-run ends (D3), with the documented constants (D2)." + NOT + "the exhaustive table x start enumeration; the AKAI reserved-run rule beyond D1/D3. Known finding G7."),
-    "C08": _p(["S5", "S7", "S3", "S4", "S6"],
+              "/ directory-run ends (D3), with the documented constants (D2); the Roland cluster stream the chains are read from has the recorded offset / size "
+              "terms (L1r)." + NOT + "the exhaustive table x start enumeration; the AKAI reserved-run rule beyond D1/D3. Known finding G7."),
+    "C08": _p(["S5", "S7", "S3", "S4", "S6", "L2"],
               "Obligations on the 2 base methods and 9 override methods implementing every view kind: read amount = min(end-position, size) (0 if negative), position advances by exactly "
               "that amount, seek = clamp(base(whence)+offset, 0, end), no subclass overrides read/seek/tell/readall (S5); window and reversed translations incl. alignment errors and the "
               "reshape/flip idiom (S7); address maps as affine terms on every path (S3); split accounting, first/middle/last piece indices, zero-size guard, length check (S4); re-sync "
-              "before every underlying read (S6)." + NOT + "equality with a reference model over operation histories; empty views; short reads of the underlying file."),
+              "before every underlying read (S6); container windows: MDX offset = sizeof(header), size = eof - offset; MDF geometry (L2)." + NOT + "equality with a reference model over operation histories; empty views; short reads of the underlying file."),
     "C09": _p(["C1", "C2", "S8", "S3", "L1c", "L2", "Q3", "Q2"],
               "Decides: detection cascade order and the stream each probe/parser receives (C1); data-track existential and CDDA branch (C2); every probe restores the borrowed stream's "
               "position on every normal exit (S8); MDF geometry 2352 = 16+2048+288, size = (n // 2352) * 2048 (S3); MDX window offset = sizeof(header), size = eof - offset; container "
@@ -137,25 +143,28 @@ PROPS = {
               "Decides: zip / parallel indexing only combines lists of one index domain (per stream vs per channel), interprocedurally for the swap flags (P4); byte-order predicates vs "
               "system_byte_order and destination (P4); every stream reads n*frame_size bytes with one common n, blocks trimmed to whole frames of that stream, pass-through uses "
               "buffer_sizes[0], stop conditions, channel-count check (P5); interleave / de-interleave idioms, end-padding, dtype table (P6)." + NOT + "numerical equality per frame; padding values."),
-    "C13": _p(["T1", "T2", "T3", "T4"],
+    "C13": _p(["T1", "T2", "T3", "T4", "T5", "S9"],
               "Decides the termination/boundedness clauses visible in code shape: every `while` loop of the package carries a termination variant checked on every back-edge path of a "
               "hand-built CFG - COUNTER, BOUNDED-RAISE, LEN-CONSUME (with callee summaries), ITERATOR, VISITED-WALK, STREAM-PARSE (record consumption proven positive incl. the adapter's "
               "size>=1 guard), READ-UNTIL-EMPTY, ANCESTOR (T1); no `for` grows its own iterable (T2); every cycle of the resolved call graph is in a confirmed table with its side condition "
-              "re-checked (T3); image-controlled counts/sizes are width-bounded or lazy (T4)." + NOT + "complexity constants; loops inside construct/numpy; peak memory.",
+              "re-checked (T3); image-controlled counts/sizes are width-bounded or lazy (T4); no regular expression of the package contains an "
+              "exponential-backtracking construct - nested unbounded repeats or overlapping alternatives under a repeat (T5); a failed block read ends the data iterator with "
+              "StopIteration (S9: an empty block instead would be re-requested forever)." + NOT + "complexity constants; loops inside construct/numpy; peak memory.",
               ["sector_length/buffer_length attributes are positive (constructor sites pass positive constants)", "the element parent relation is a tree"]),
     "C14": _p(["I1", "I5", "I4", "L1t", "L4", "L2", "S1", "S2"],
               "Decides: in the AKAI file-table loop the handler re-seeks to entry start + entry size and continues; in lazy file realisation the error path appends nothing and continues; "
               "the four Roland sample references and tolerant lists skip a failing element; Roland records are addressed absolutely (Computed/Pointer/Lazy only) so element i cannot shift "
               "element j (I1, L4); 24-byte file entries / record layouts (L1t, L2); out-of-range start sectors raise the exception the loop swallows (S1, S2)." + NOT +
               "damage that still parses (a start sector pointing into another file's chain); equality of the other items' audio."),
-    "C15": _p(["S4p", "S9", "T1", "L1w", "I1", "I5", "I4", "P5", "S6"],
+    "C15": _p(["S4p", "S9", "T1", "L1w", "I1", "I5", "I4", "P5", "S6", "L8c"],
               "Decides: a short sector read is detected on every returning path of SectorStream._read (S4e) and ends the data stream instead of aborting (S9); partition scan leaves its "
               "loop on the first unparsable header (T1-STREAM-PARSE exits); length prefixes wrap the streamed data (L1w); unreadable files are skipped without stopping the remaining ones "
-              "(I1); whole-frame blocks (P5)." + NOT + "prefix equality; which files are reported for which cut."),
-    "C16": _p(["I2", "I3", "R1", "N2", "N7", "S6", "S8", "N5"],
+              "(I1); whole-frame blocks (P5); the last CDDA track runs to the end of the file as it is (L8c)." + NOT + "prefix equality; which files are reported for which cut."),
+    "C16": _p(["I2", "I3", "R1", "N2", "N7", "S6", "S8", "N5", "N4", "L8r"],
               "Decides: accumulating / position-dependent realisers run once under a flag they always set (I2); no write-capable call outside the export path, inputs opened read-only "
               "(I3, N5); data streams are rewound before every export (R1); both actions install both naming routines before traversing, so what an operation sees does not depend on which "
-              "ran first (N2); names recomputed from raw names (N7); no read depends on where an earlier operation left the shared cursor (S6, S8)." + NOT +
+              "ran first (N2); names recomputed from raw names (N7); no read depends on where an earlier operation left the shared cursor (S6, S8); name sanitising is a function of (raw name, "
+              "file/directory flag) only (N4); Roland sample realisation derives its window from the stored stream without replacing it (L8r)." + NOT +
               "equality across operation histories; effects of context mutation in wrap_child_realization."),
     "C17": _p(["Q1", "Q2", "Q3", "Q4", "T1"],
               "Decides: the four line regexes are case-insensitive, tolerate leading blanks, match their keyword and capture the documented groups (Q1); blank lines are judged on the fully "
@@ -177,5 +186,6 @@ PROPS = {
               "Decides where each displayed value is read from and which key it lands in: evaluated layouts of AKAI sample header / loop table / program header / keygroup (symbolic in the "
               "zone count) / velocity zone and Roland sample parameter record incl. mapping tables, enum tables and Computed/If/Seek expressions vs the reviewed reference (L1i, L1ri, L2); "
               "dataclass <- struct field flow, positional constructor mapping, 0 -> 44100 default, active-loop selection over all 8 entries, itemize exclusions (L6); keygroup chain bounded "
-              "by a 1-byte count (T4); CDDA track facts (L8c)." + NOT + "rendering (80-column truncation, 300-line cap); float formatting."),
+              "by a 1-byte count (T4); CDDA track facts (L8c); padded tables (velocity zones) drop exactly the slots their predicate rejects, "
+              "at any position (L6)." + NOT + "rendering (80-column truncation, 300-line cap); float formatting."),
 }
